@@ -1,5 +1,5 @@
 """C08 — initial-potential load vector (DESIGN 4.C08)."""
-from vlib.core import Check
+from vlib.core import Check, guarded
 from pyvc.driver import verify_contracts, ENGINE_ASSUMPTIONS
 from pyvc import arrays, extio
 from contracts import common, initial_potential
@@ -22,10 +22,10 @@ def run(tier, seed):
     smt.close_pool()
     try:
         from bounded import potential_rel
-        potential_rel.run(chk, "C08", tier, seed)
+        guarded(chk, 'bounded part potential_rel.run', potential_rel.run, chk, "C08", tier, seed)
     except ImportError:
         chk.notes.append("bounded part (potential_rel) not built yet")
     # the load vector through the disk cache (histories with other element lists of the same length, damaged files)
     from bounded import cache_faults
-    cache_faults.run(chk, tier, seed, only="vector", pid="C08")
+    guarded(chk, 'bounded part cache_faults.run', cache_faults.run, chk, tier, seed, only="vector", pid="C08")
     return chk.finish()
